@@ -662,7 +662,11 @@ impl World {
                 Ok(true)
             }
             Mutation::Umount { path } => {
-                sys::umount(&abs(path))?;
+                // "nofollow:<path>": the mount sits on a symlink / magic-link dentry
+                match path.strip_prefix("nofollow:") {
+                    Some(p) => sys::umount_nofollow(&abs(p))?,
+                    None => sys::umount(&abs(path))?,
+                }
                 Ok(true)
             }
             Mutation::Chmod { path, mode } => {
